@@ -84,6 +84,17 @@ End Add.
 Definition gather (st : list (option cell)) (idx : list nat) : list (option cell) :=
   map (fun i => nth i st None) idx.
 
+(* ---------- batch layout of the two samples handed to the learner (shapes only) ----------
+   storage[idx] with an index tensor of shape s has batch shape s.
+   PrioritizedReplayBuffer.sample(B): rows = storage[indices] with indices of shape [B], and it
+   reports idxs = indices.unsqueeze(1), shape [B; 1].  The training loop passes those idxs on. *)
+Definition per_rows_shape (B : nat) : list nat := [B]%nat.
+Definition per_idxs_shape (B : nat) : list nat := [B; 1%nat].
+(* sample_from_indices as it is in the tree: storage[idxs] *)
+Definition from_indices_shape_pinned (idx_shape : list nat) : list nat := idx_shape.
+(* with fixes/C10-nstep-sample-column-indices.patch: storage[idxs.reshape(-1)] *)
+Definition from_indices_shape_repaired (idx_shape : list nat) : list nat := [fold_right Nat.mul 1%nat idx_shape].
+
 (* ---------- specification side (independent of the loop) ---------- *)
 (* number of transitions of a window that are summed: up to and including the first one in which
    some environment is done, or all of them *)
